@@ -43,7 +43,7 @@ CHECKS = [
         BASE_NOTE + "Hands are five distinct cards of the 52-card deck.",
         "Coq proof (reflection over the finite set of hand classes) + differential correspondence", "DESIGN.md §4 C03, §9"),
     chk("C04", ENGINE + "Proved: wrong-phase operations and unoffered actions are refused without change (every state); in every reachable "
-        "state exactly one seat is offered actions, the turn passes clockwise, the first seat to act is left of the big blind / of the dealer, and any refused operation leaves the state unchanged." + PART, BASE_NOTE,
+        "state exactly one seat is offered actions, the turn passes clockwise, the first seat to act is left of the big blind / of the dealer, any refused operation leaves the state unchanged, and what a seat has done after an accepted action was in its offer before." + PART, BASE_NOTE,
         "Coq proof over a Gallina model + differential correspondence with the Go code", "DESIGN.md §4 C04, §9"),
     chk("C05", ENGINE + "Proved: the last-man and no-stacks clauses and that the seat asked to act has not yet acted; the lap invariant (never closed early, closed within a lap) is decided by the harness's independent round monitor and the correspondence only." + PART, BASE_NOTE,
         "Coq proof over a Gallina model + differential correspondence with the Go code", "DESIGN.md §4 C05, §9"),
